@@ -40,7 +40,7 @@ type arities struct {
 // arityInst builds the instance of one tuple arity / HCons chain length: six values in which
 // every component runs through its own domain (shifted by the position, so neighbouring
 // components never move in step).
-func arityInst[T any](head string, n int, m fp.Monoid[T], mk func(c []any) T, split func(any) []any, open, sep, close string, kids ...*node) *inst[T] {
+func arityInst[T any](head string, n int, m func() fp.Monoid[T], mk func(c []any) T, split func(any) []any, open, sep, close string, kids ...*node) *inst[T] {
 	mkDom := func() []any {
 		var dom []any
 		doms := make([][]any, n)
@@ -58,24 +58,25 @@ func arityInst[T any](head string, n int, m fp.Monoid[T], mk func(c []any) T, sp
 		return dom
 	}
 	nd := &node{name: "monoid." + head, pkg: "monoid", head: "monoid." + head, depth: 2, kids: kids, dom: mkDom(), mk: mkDom, eqv: prodEq(kids, split), show: prodShow(kids, split, open, sep, close)}
+	nd.mut = prodMut(kids, split)
 	return finishM(nd, m)
 }
 
 func buildCatalogue() (grammar *catalogue, extra *catalogue, ar *arities) {
 	unitEq := func(a, b any) bool { return true }
-	hn := finishM(newNode("monoid", "HNil", fixed([]hlist.Nil{{}}), unitEq, func(any) string { return "HNil" }), monoid.HNil)
+	hn := finishM(newNode("monoid", "HNil", fixed([]hlist.Nil{{}}), unitEq, func(any) string { return "HNil" }), mval(monoid.HNil))
 	grammar = &catalogue{hnil: hn}
 	extra = &catalogue{hnil: hn}
 
-	mString := finishM(newNode("monoid", "String", fixed(strDom), eqComparable[string], showV), monoid.String)
-	mSumInt := finishM(sumNode("monoid", "int", intDom), monoid.Sum[int]())
-	mSumStr := finishM(sumNode("monoid", "string", strDom), monoid.Sum[string]())
-	mProdInt := finishM(productNode("monoid", "int", intDom), monoid.Product[int]())
+	mString := finishM(newNode("monoid", "String", fixed(strDom), eqComparable[string], showV), mval(monoid.String))
+	mSumInt := finishM(sumNode("monoid", "int", intDom), monoid.Sum[int])
+	mSumStr := finishM(sumNode("monoid", "string", strDom), monoid.Sum[string])
+	mProdInt := finishM(productNode("monoid", "int", intDom), monoid.Product[int])
 	or := func(a, b bool) bool { return a || b }
 	and := func(a, b bool) bool { return a && b }
-	mAny := finishM(boolNode("monoid", "Any", "disjunction", false, or), monoid.Any)
-	mAll := finishM(boolNode("monoid", "All", "conjunction", true, and), monoid.All)
-	mEndo := finishM(endoNode("monoid"), monoid.Endo[int]())
+	mAny := finishM(boolNode("monoid", "Any", "disjunction", false, or), mval(monoid.Any))
+	mAll := finishM(boolNode("monoid", "All", "conjunction", true, and), mval(monoid.All))
+	mEndo := finishM(endoNode("monoid"), monoid.Endo[int])
 	mSeq := mergeSeqI()
 
 	// depth 2 — every combinator applied to every combinator — over the non-commutative String
@@ -95,30 +96,32 @@ func buildCatalogue() (grammar *catalogue, extra *catalogue, ar *arities) {
 	add := func(n *node) { extra.add(n) }
 	add(hn.n)
 	add(mSumStr.n)
-	add(finishM(newNode("monoid", "Unit", fixed([]fp.Unit{{}}), unitEq, func(any) string { return "Unit" }), monoid.Unit).n)
+	add(finishM(newNode("monoid", "Unit", fixed([]fp.Unit{{}}), unitEq, func(any) string { return "Unit" }), mval(monoid.Unit)).n)
 	add(mergeGoMapI().n)
 	add(mergeMapI().n)
 	add(mergeSetI().n)
-	add(finishM(sumNode("monoid", "float64", fltDom), monoid.Sum[float64]()).n)
-	add(finishM(productNode("monoid", "float64", fltDom), monoid.Product[float64]()).n)
-	add(finishM(sumNode("monoid", "uint8", []uint8{0, 1, 2, 128, 255}), monoid.Sum[uint8]()).n)
-	add(finishM(productNode("monoid", "uint8", []uint8{0, 1, 2, 16, 128, 255}), monoid.Product[uint8]()).n)
-	add(finishM(sumNode("monoid", "int8", []int8{0, 1, -1, 127, -128}), monoid.Sum[int8]()).n)
-	add(finishM(productNode("monoid", "int8", []int8{0, 1, -1, 127, -128, 16}), monoid.Product[int8]()).n)
-	add(finishM(sumNode("fp", "int", intDom), fp.Sum[int]()).n)
-	add(finishM(sumNode("fp", "string", strDom), fp.Sum[string]()).n)
-	add(finishM(productNode("fp", "int", intDom), fp.Product[int]()).n)
-	add(finishM(productNode("fp", "float64", fltDom), fp.Product[float64]()).n)
+	add(finishM(sumNode("monoid", "float64", fltDom), monoid.Sum[float64]).n)
+	add(finishM(productNode("monoid", "float64", fltDom), monoid.Product[float64]).n)
+	add(finishM(sumNode("monoid", "uint8", []uint8{0, 1, 2, 128, 255}), monoid.Sum[uint8]).n)
+	add(finishM(productNode("monoid", "uint8", []uint8{0, 1, 2, 16, 128, 255}), monoid.Product[uint8]).n)
+	add(finishM(sumNode("monoid", "int8", []int8{0, 1, -1, 127, -128}), monoid.Sum[int8]).n)
+	add(finishM(productNode("monoid", "int8", []int8{0, 1, -1, 127, -128, 16}), monoid.Product[int8]).n)
+	add(finishM(sumNode("fp", "int", intDom), fp.Sum[int]).n)
+	add(finishM(sumNode("fp", "string", strDom), fp.Sum[string]).n)
+	add(finishM(productNode("fp", "int", intDom), fp.Product[int]).n)
+	add(finishM(productNode("fp", "float64", fltDom), fp.Product[float64]).n)
 	// user-supplied functions through monoid.New
-	add(finishM(newNode("monoid", "New[max]", fixed([]int{0, 1, 2, 5}), eqComparable[int], showV), monoid.New(func() int { return 0 }, func(a, b int) int { return max(a, b) })).n)
+	add(finishM(newNode("monoid", "New[max]", fixed([]int{0, 1, 2, 5}), eqComparable[int], showV), func() fp.Monoid[int] {
+		return monoid.New(func() int { return 0 }, func(a, b int) int { return max(a, b) })
+	}).n)
 
 	// the semigroup package
-	sSumInt := finishS(sumNode("semigroup", "int", intDom), semigroup.Sum[int]())
-	sSumStr := finishS(sumNode("semigroup", "string", strDom), semigroup.Sum[string]())
-	sProdInt := finishS(productNode("semigroup", "int", intDom), semigroup.Product[int](0, 0))
-	sAny := finishS(boolNode("semigroup", "Any", "disjunction", false, or), semigroup.Any)
-	sAll := finishS(boolNode("semigroup", "All", "conjunction", true, and), semigroup.All)
-	sEndo := finishS(endoNode("semigroup"), semigroup.Endo[int]())
+	sSumInt := finishS(sumNode("semigroup", "int", intDom), semigroup.Sum[int])
+	sSumStr := finishS(sumNode("semigroup", "string", strDom), semigroup.Sum[string])
+	sProdInt := finishS(productNode("semigroup", "int", intDom), func() fp.Semigroup[int] { return semigroup.Product[int](0, 0) })
+	sAny := finishS(boolNode("semigroup", "Any", "disjunction", false, or), sval(semigroup.Any))
+	sAll := finishS(boolNode("semigroup", "All", "conjunction", true, and), sval(semigroup.All))
+	sEndo := finishS(endoNode("semigroup"), semigroup.Endo[int])
 	for _, n := range []*node{sSumInt.n, sSumStr.n, sProdInt.n, sAny.n, sAll.n, sEndo.n} {
 		n.meaningEmpty = nil // a semigroup has no Empty
 	}
@@ -128,8 +131,8 @@ func buildCatalogue() (grammar *catalogue, extra *catalogue, ar *arities) {
 	sgExpand1(extra, sAny)
 	sgExpand1(extra, sAll)
 	sgExpand1(extra, sEndo)
-	add(finishS(productNode("semigroup", "float64", fltDom), semigroup.Product[float64](0, 0)).n)
-	add(finishS(newNode("semigroup", "New[min]", fixed([]int{0, 1, 2, 5}), eqComparable[int], showV), semigroup.New(func(a, b int) int { return min(a, b) })).n)
+	add(finishS(productNode("semigroup", "float64", fltDom), func() fp.Semigroup[float64] { return semigroup.Product[float64](0, 0) }).n)
+	add(finishS(newNode("semigroup", "New[min]", fixed([]int{0, 1, 2, 5}), eqComparable[int], showV), func() fp.Semigroup[int] { return semigroup.New(func(a, b int) int { return min(a, b) }) }).n)
 	// the semigroup combinators accept monoids as well
 	add(sgDualOf(mString).n)
 	add(sgOptionOf(mString).n)
@@ -170,6 +173,50 @@ func lawScenario(r *mc.Registry, name string, nodes []*node) {
 	sc.SplitDepth = 2
 }
 
+// historyScenario: every call/write sequence of depth histDepth on one long-lived instance.
+func historyScenario(r *mc.Registry, nodes []*node) (mutableNodes int) {
+	for _, n := range nodes {
+		n.histAlphabet()
+		if n.mutable {
+			mutableNodes++
+		}
+	}
+	sc := r.Seq("history", func(x *mc.X) {
+		n := nodes[x.Choose(len(nodes), "instance")]
+		alphabet := n.histAlphabet()
+		seq := make([]int, histDepth)
+		writes, calls := 0, 0
+		for d := range seq {
+			seq[d] = x.Choose(len(alphabet), "step")
+			if alphabet[seq[d]].kind == "mut" {
+				writes++
+			} else {
+				calls++
+			}
+		}
+		x.Tag("history: " + n.name)
+		law, msg, trace := n.history(seq)
+		for _, t := range trace {
+			x.Logf("%s", t)
+		}
+		if law != "" {
+			cu := n.histCulprit()
+			via := ""
+			if cu != n {
+				via = fmt.Sprintf(" (attributed to the component instance %s, which violates %q in the history family on its own)", cu.name, cu.histcheck())
+			}
+			x.Fail(cu.head+"/"+law, "%s%s", msg, via)
+		}
+		x.Observe(n.name, strings.Join(trace, ";"))
+		if writes > 0 && calls > 0 {
+			x.NonTrivial()
+			x.Tag("history: sequences with a write into a referent between calls")
+		}
+	})
+	sc.SplitDepth = 2
+	return
+}
+
 func orOK(s string) string {
 	if s == "" {
 		return "ok"
@@ -187,7 +234,7 @@ type foldCase struct {
 // foldMonoid is a monoid of the fold scenario with its operand alphabet.
 type foldMonoid[T any] struct {
 	name string
-	m    fp.Monoid[T]
+	mk   func() fp.Monoid[T] // the instance is constructed inside every execution
 	// alphabet builds the operands FRESH for every execution; for the slice-like carriers they
 	// are sub-slices with spare capacity of larger live arrays (two of them of one array)
 	alphabet func() []T
@@ -223,7 +270,7 @@ type foldImpl[T any] struct {
 	name, note string
 	// f folds the elements elems[idx[0]], elems[idx[1]], ... (Reduce: the sequence of those
 	// values; FoldMap: the sequence idx mapped by i -> elems[i])
-	f func(idx []int, elems []T) T
+	f func(m fp.Monoid[T], idx []int, elems []T) T
 }
 
 func foldCases[T any](kind string, fm foldMonoid[T], impls []foldImpl[T]) []foldCase {
@@ -233,6 +280,7 @@ func foldCases[T any](kind string, fm foldMonoid[T], impls []foldImpl[T]) []fold
 		out = append(out, foldCase{im.name + im.note + " with " + fm.name, func(x *mc.X, maxLen int) {
 			elems := fm.alphabet()
 			idx := pickIndices(x, maxLen, len(elems))
+			m := fm.mk()
 			before := make([]string, len(elems))
 			for i, e := range elems {
 				before[i] = fm.show(e)
@@ -244,18 +292,18 @@ func foldCases[T any](kind string, fm foldMonoid[T], impls []foldImpl[T]) []fold
 			in := "[" + strings.Join(shown, " ") + "]"
 			// reference: the plain loop, on independent operands without spare capacity
 			ref := fm.alphabet()
-			want := fm.m.Empty()
+			want := m.Empty()
 			for _, i := range idx {
-				want = fm.m.Combine(want, fm.tight(ref[i]))
+				want = m.Combine(want, fm.tight(ref[i]))
 			}
 			wantS := fm.show(fm.tight(want))
 			var got, got2 T
-			if p := mc.Catch(func() { got = im.f(idx, elems) }); p != nil {
+			if p := mc.Catch(func() { got = im.f(m, idx, elems) }); p != nil {
 				failFold(x, fm.node, im.name+"/panic", "%s(%s, %s)%s panicked: %v", im.name, in, fm.name, im.note, p)
 			}
 			gotS, gotOK := fm.show(got), fm.eqv(got, want)
 			// the same fold once more on the same operands; then everything is looked at again
-			if p := mc.Catch(func() { got2 = im.f(idx, elems) }); p != nil {
+			if p := mc.Catch(func() { got2 = im.f(m, idx, elems) }); p != nil {
 				failFold(x, fm.node, im.name+"/panic", "%s(%s, %s)%s panicked when called again: %v", im.name, in, fm.name, im.note, p)
 			}
 			x.Logf("%s(%s, %s)%s = %s, left fold = %s", im.name, in, fm.name, im.note, gotS, wantS)
@@ -293,26 +341,28 @@ func reduceCases[T any](fm foldMonoid[T]) []foldCase {
 		}
 		return in
 	}
-	m := fm.m
 	return foldCases("Reduce", fm, []foldImpl[T]{
-		{"seq.Reduce", "", func(idx []int, e []T) T { return seq.Reduce(build(idx, e), m) }},
-		{"iterator.Reduce", "", func(idx []int, e []T) T { return iterator.Reduce(iterator.FromSeq(build(idx, e)), m) }},
-		{"list.Reduce", "", func(idx []int, e []T) T { return list.Reduce(list.FromSeq(build(idx, e)), m) }},
-		{"list.Reduce", " (lazily produced list)", func(idx []int, e []T) T { return list.Reduce(list.Collect(iterator.FromSeq(build(idx, e))), m) }},
+		{"seq.Reduce", "", func(m fp.Monoid[T], idx []int, e []T) T { return seq.Reduce(build(idx, e), m) }},
+		{"iterator.Reduce", "", func(m fp.Monoid[T], idx []int, e []T) T { return iterator.Reduce(iterator.FromSeq(build(idx, e)), m) }},
+		{"list.Reduce", "", func(m fp.Monoid[T], idx []int, e []T) T { return list.Reduce(list.FromSeq(build(idx, e)), m) }},
+		{"list.Reduce", " (lazily produced list)", func(m fp.Monoid[T], idx []int, e []T) T {
+			return list.Reduce(list.Collect(iterator.FromSeq(build(idx, e))), m)
+		}},
 	})
 }
 
 // FoldMap: the elements are ints, mapped into the monoid by the table elems (so the same operand,
 // with the same storage, is returned for equal elements).
 func foldMapCases[T any](fm foldMonoid[T]) []foldCase {
-	m := fm.m
 	ints := func(idx []int) fp.Seq[int] { return append(fp.Seq[int]{}, idx...) }
 	return foldCases("FoldMap", fm, []foldImpl[T]{
-		{"seq.FoldMap", "", func(idx []int, e []T) T { return seq.FoldMap(ints(idx), m, func(i int) T { return e[i] }) }},
-		{"list.FoldMap", "", func(idx []int, e []T) T {
+		{"seq.FoldMap", "", func(m fp.Monoid[T], idx []int, e []T) T {
+			return seq.FoldMap(ints(idx), m, func(i int) T { return e[i] })
+		}},
+		{"list.FoldMap", "", func(m fp.Monoid[T], idx []int, e []T) T {
 			return list.FoldMap(list.FromSeq(ints(idx)), m, func(i int) T { return e[i] })
 		}},
-		{"list.FoldMap", " (lazily produced list)", func(idx []int, e []T) T {
+		{"list.FoldMap", " (lazily produced list)", func(m fp.Monoid[T], idx []int, e []T) T {
 			return list.FoldMap(list.Collect(iterator.FromSeq(ints(idx))), m, func(i int) T { return e[i] })
 		}},
 	})
@@ -346,12 +396,12 @@ func foldScenario(r *mc.Registry, maxLen int, byName map[string]*node) int {
 	}
 	shO := func(o fp.Option[string]) string { return o.String() }
 
-	mString := foldMonoid[string]{"monoid.String", monoid.String, constant(strDom...), ident[string], eqS, shS, byName["monoid.String"]}
-	mSum := foldMonoid[int]{"monoid.Sum[int]", monoid.Sum[int](), constant(0, 1, 2, -1), ident[int], eqI, shI, byName["monoid.Sum[int]"]}
-	mProd := foldMonoid[int]{"monoid.Product[int]", monoid.Product[int](), constant(0, 1, 2, -1), ident[int], eqI, shI, byName["monoid.Product[int]"]}
-	mOpt := foldMonoid[fp.Option[string]]{"monoid.Option(monoid.String)", monoid.Option(monoid.String),
+	mString := foldMonoid[string]{"monoid.String", mval(monoid.String), constant(strDom...), ident[string], eqS, shS, byName["monoid.String"]}
+	mSum := foldMonoid[int]{"monoid.Sum[int]", monoid.Sum[int], constant(0, 1, 2, -1), ident[int], eqI, shI, byName["monoid.Sum[int]"]}
+	mProd := foldMonoid[int]{"monoid.Product[int]", monoid.Product[int], constant(0, 1, 2, -1), ident[int], eqI, shI, byName["monoid.Product[int]"]}
+	mOpt := foldMonoid[fp.Option[string]]{"monoid.Option(monoid.String)", func() fp.Monoid[fp.Option[string]] { return monoid.Option(monoid.String) },
 		constant(fp.None[string](), fp.Some(""), fp.Some("a"), fp.Some("b")), ident[fp.Option[string]], eqO, shO, byName["monoid.Option(monoid.String)"]}
-	mSeq := foldMonoid[fp.Seq[int]]{"monoid.MergeSeq[int]", monoid.MergeSeq[int](),
+	mSeq := foldMonoid[fp.Seq[int]]{"monoid.MergeSeq[int]", monoid.MergeSeq[int],
 		func() []fp.Seq[int] {
 			var out []fp.Seq[int]
 			for _, s := range spareInts() {
@@ -362,11 +412,11 @@ func foldScenario(r *mc.Registry, maxLen int, byName map[string]*node) int {
 		func(s fp.Seq[int]) fp.Seq[int] { return cloneInts(s) },
 		func(a, b fp.Seq[int]) bool { return seqEq(a, b) },
 		func(s fp.Seq[int]) string { return showSlice(s) }, byName["monoid.MergeSeq[int]"]}
-	mSlice := foldMonoid[[]int]{"monoid.MergeSlice[int]", monoid.MergeSlice[int](), spareInts, cloneInts,
+	mSlice := foldMonoid[[]int]{"monoid.MergeSlice[int]", monoid.MergeSlice[int], spareInts, cloneInts,
 		func(a, b []int) bool { return seqEq(a, b) }, func(s []int) string { return showSlice(s) }, byName["monoid.MergeSlice[int]"]}
 	// Dual puts the ELEMENT on the left of the underlying Combine, so an implementation that
 	// appends in place writes into the elements of the input
-	mDualSlice := foldMonoid[fp.Dual[[]int]]{"monoid.Dual(monoid.MergeSlice[int])", monoid.Dual(monoid.MergeSlice[int]()),
+	mDualSlice := foldMonoid[fp.Dual[[]int]]{"monoid.Dual(monoid.MergeSlice[int])", func() fp.Monoid[fp.Dual[[]int]] { return monoid.Dual(monoid.MergeSlice[int]()) },
 		func() []fp.Dual[[]int] {
 			var out []fp.Dual[[]int]
 			for _, s := range spareInts() {
@@ -377,7 +427,7 @@ func foldScenario(r *mc.Registry, maxLen int, byName map[string]*node) int {
 		func(d fp.Dual[[]int]) fp.Dual[[]int] { return fp.Dual[[]int]{GetDual: cloneInts(d.GetDual)} },
 		func(a, b fp.Dual[[]int]) bool { return seqEq(a.GetDual, b.GetDual) },
 		func(d fp.Dual[[]int]) string { return "Dual{" + showSlice(d.GetDual) + "}" }, byName["monoid.Dual(monoid.MergeSlice[int])"]}
-	mDualSeq := foldMonoid[fp.Dual[fp.Seq[int]]]{"monoid.Dual(monoid.MergeSeq[int])", monoid.Dual(monoid.MergeSeq[int]()),
+	mDualSeq := foldMonoid[fp.Dual[fp.Seq[int]]]{"monoid.Dual(monoid.MergeSeq[int])", func() fp.Monoid[fp.Dual[fp.Seq[int]]] { return monoid.Dual(monoid.MergeSeq[int]()) },
 		func() []fp.Dual[fp.Seq[int]] {
 			var out []fp.Dual[fp.Seq[int]]
 			for _, s := range spareInts() {
@@ -411,7 +461,7 @@ func foldScenario(r *mc.Registry, maxLen int, byName map[string]*node) int {
 
 func main() {
 	mc.Main("C11", func(r *mc.Registry) {
-		r.Rule = "grammar/arity: execution = (Monoid/Semigroup instance expression, a, b, c) over the whole value domain of the instance's type (all triples); each execution evaluates Combine(Combine(a,b),c), Combine(a,Combine(b,c)), Combine(Empty,a), Combine(a,Empty) on the library's instance and compares with extensional equality (and, for the named instances, with the native operation); non-trivial = three different domain elements; distinct outcome = (instance, value of (a.b).c). fold: execution = (implementation of Reduce|FoldMap, monoid, input sequence) for ALL sequences up to the length bound over 4 values; every implementation (seq, iterator, list from a Seq, lazily produced list) must return the left-to-right loop acc = Combine(acc, x) from Empty (computed on independent operands without spare capacity), run twice on the same operands; non-trivial = at least two elements. In both parts the operands are built fresh inside every execution; the slice-like carriers (MergeSeq, MergeSlice and everything nested over them, Dual of them in the fold) get operands with spare capacity that are sub-slices of larger live arrays; all results are computed first and compared afterwards, every returned value is read again after the later Combine/fold calls (result-changed-later) and every operand including the backing array beyond its length is compared with its snapshot (operand-modified)"
+		r.Rule = "history: execution = (Monoid/Semigroup instance expression, sequence of histDepth steps) for EVERY sequence over the alphabet {Combine of each ordered pair of three operands, Empty, and for operands with a mutable referent a write of new contents in place} on ONE long-lived constructed instance; each result must equal (extensionally) what a freshly constructed instance returns for the current values; all library instances are constructed anew inside every execution. grammar/arity: execution = (Monoid/Semigroup instance expression, a, b, c) over the whole value domain of the instance's type (all triples); each execution evaluates Combine(Combine(a,b),c), Combine(a,Combine(b,c)), Combine(Empty,a), Combine(a,Empty) on the library's instance and compares with extensional equality (and, for the named instances, with the native operation); non-trivial = three different domain elements; distinct outcome = (instance, value of (a.b).c). fold: execution = (implementation of Reduce|FoldMap, monoid, input sequence) for ALL sequences up to the length bound over 4 values; every implementation (seq, iterator, list from a Seq, lazily produced list) must return the left-to-right loop acc = Combine(acc, x) from Empty (computed on independent operands without spare capacity), run twice on the same operands; non-trivial = at least two elements. In both parts the operands are built fresh inside every execution; the slice-like carriers (MergeSeq, MergeSlice and everything nested over them, Dual of them in the fold) get operands with spare capacity that are sub-slices of larger live arrays; all results are computed first and compared afterwards, every returned value is read again after the later Combine/fold calls (result-changed-later) and every operand including the backing array beyond its length is compared with its snapshot (operand-modified)"
 		r.Assumptions = []string{
 			"float instances: associativity is excluded (property); identity and the meaning of the name are compared with ==, NaN-producing operands are not in the domain",
 			"integer arithmetic is modulo overflow (Go semantics) in the reference as well",
@@ -449,6 +499,11 @@ func main() {
 			}
 		}
 		ncases := foldScenario(r, maxLen, byName)
+		if r.Thorough() {
+			histDepth = 4
+		}
+		histNodes := append(append([]*node{}, grammarNodes...), arityNodes...)
+		mutableNodes := historyScenario(r, histNodes)
 
 		heads := map[string]int{}
 		for _, n := range append(append([]*node{}, grammarNodes...), arityNodes...) {
@@ -461,16 +516,19 @@ func main() {
 			heads[h]++
 		}
 		r.Extra["bounds"] = map[string]any{
-			"instance_expressions":           len(grammarNodes) + len(arityNodes),
-			"nesting_depth":                  2,
-			"domain_cap_per_type":            domCap,
-			"tuple_arities":                  len(tup),
-			"hcons_chain_lengths":            len(hc),
-			"instances_per_head_constructor": heads,
-			"fold_max_length":                maxLen,
-			"fold_cases":                     ncases,
-			"fold_alphabet_size":             4,
-			"slice_operands":                 "nil, base[:1] and base[:2] of one cap-4 array, other[:1] of a cap-3 array, an append-grown [2 1] of cap 4, empty",
+			"instance_expressions":                     len(grammarNodes) + len(arityNodes),
+			"nesting_depth":                            2,
+			"history_depth":                            histDepth,
+			"history_instances":                        len(histNodes),
+			"history_instances_with_mutable_referents": mutableNodes,
+			"domain_cap_per_type":                      domCap,
+			"tuple_arities":                            len(tup),
+			"hcons_chain_lengths":                      len(hc),
+			"instances_per_head_constructor":           heads,
+			"fold_max_length":                          maxLen,
+			"fold_cases":                               ncases,
+			"fold_alphabet_size":                       4,
+			"slice_operands":                           "nil, base[:1] and base[:2] of one cap-4 array, other[:1] of a cap-3 array, an append-grown [2 1] of cap 4, empty",
 		}
 		r.Extra["uncovered"] = []string{
 			"monoid.Future (not named by the property; needs an executor and is covered by the Future properties)",
